@@ -64,7 +64,7 @@ pub fn model_history(ops: &[WOp], e: End, wbits: usize) -> (Bits, Vec<WObs>, u64
     for op in ops {
         let before = bits.len();
         let o = model_apply(&mut bits, op, e, wbits).expect("model");
-        if !matches!(op, WOp::Flush) {
+        if !matches!(op, WOp::Flush | WOp::IoFlush) {
             written += (bits.len() - before) as u64;
         }
         obs.push(o);
@@ -201,13 +201,12 @@ pub fn explore(run: &WrRun) -> Outcome {
                 Some(x) => x,
                 None => continue,
             };
-            let added = if matches!(op, WOp::Flush) { 0 } else { (bits.len() - before) as u64 };
+            let added = if matches!(op, WOp::Flush | WOp::IoFlush) { 0 } else { (bits.len() - before) as u64 };
             let obs = w.apply(op);
             out.cov.transitions += 1;
             if obs == WObs::Unsupported {
                 continue;
             }
-            out.cov.observe(op.class(), fnv(format!("{:?}{}", obs, bits.len() % wbits).as_bytes()));
             if depth >= 1 {
                 out.cov.nontrivial += 1;
             }
@@ -241,6 +240,8 @@ pub fn explore(run: &WrRun) -> Outcome {
             let want = bits.slice(0, k * wbits).to_bytes(run.e, 0);
             let all = w.delivered();
             let got = &all[d0..];
+            // an observation = what the call returned, how many bytes it delivered, how many bits stay pending
+            out.cov.observe(op.class(), fnv(format!("{:?}/{}/{}", obs, got.len(), bits.len() % wbits).as_bytes()));
             if verdict.is_ok() && got != &want[..] {
                 verdict = Err(("bytes".into(), format!("words delivered during the step: expected {} got {}", hex(&want), hex(got))));
             }
@@ -317,7 +318,7 @@ pub fn replay(doc: &Value) -> (Vec<String>, bool) {
     for op in &ops {
         let before = bits.len();
         let exp = model_apply(&mut bits, op, e, wbits).unwrap();
-        if !matches!(op, WOp::Flush) {
+        if !matches!(op, WOp::Flush | WOp::IoFlush) {
             written += (bits.len() - before) as u64;
         }
         let d0 = w.delivered_len();
